@@ -58,6 +58,7 @@ type Sim struct {
 	mu       sync.Mutex
 	lastHdrs *Peer // peer the client most recently sent getheaders to
 	lies     map[int]*liePlan
+	hdrLog   []SentHeaders
 	spin     *spinDB
 	Requests int
 	stopped  bool
@@ -70,6 +71,28 @@ func (s *Sim) noteRequest(p *Peer, m wire.Message) {
 	if _, ok := m.(*wire.MsgGetHeaders); ok {
 		s.lastHdrs = p
 	}
+}
+
+// SentHeaders is one headers message put on the wire by a scripted peer.
+type SentHeaders struct {
+	Peer int
+	Hdrs []*wire.BlockHeader
+}
+
+func (s *Sim) noteHeadersSent(p *Peer, m *wire.MsgHeaders) {
+	s.mu.Lock()
+	defer s.mu.Unlock()
+	s.hdrLog = append(s.hdrLog, SentHeaders{Peer: p.Idx, Hdrs: m.Headers})
+}
+
+// TakeHeadersLog returns and clears the log of headers messages sent by
+// peers since the last call.
+func (s *Sim) TakeHeadersLog() []SentHeaders {
+	s.mu.Lock()
+	defer s.mu.Unlock()
+	l := s.hdrLog
+	s.hdrLog = nil
+	return l
 }
 
 // LastHeadersPeer is the peer the client most recently asked for headers.
